@@ -179,7 +179,8 @@ def run_path(contract, world, prefix, compare_spec=True, forker=None):
                 hook = None
                 if contract.on_yield is not None:
                     hook = (lambda c_: lambda it, env, v: c_.on_yield(it, env, v, args))(contract)
-                body_res = interp.call_function(node, Env(None, {}), list(args), dict(kwargs), q,
+                body_res = interp.call_function(node, Env(None, dict(getattr(contract, 'closure_env', None) or {})),
+                                                list(args), dict(kwargs), q,
                                                 loops=contract.loops, on_yield=hook)
             except PyRaise as e:
                 body_exc = e.exc
